@@ -667,9 +667,91 @@ hostile_dist_script!(hostile_dist_i8_u8_8, i8, u8, 8, 8);
 hostile_dist_script!(hostile_dist_u8_u16_12, u8, u16, 12, 16);
 hostile_dist_script!(hostile_dist_i16_u16_16, i16, u16, 16, 16);
 
+/// an `EncoderModel` + `DecoderModel` written by the user that answers with anything at all
+pub struct UserModel {
+    answers: Vec<(i32, u16, core::num::NonZeroU16)>,
+}
+impl EntropyModel<12> for UserModel {
+    type Symbol = i32;
+    type Probability = u16;
+}
+impl EncoderModel<12> for UserModel {
+    fn left_cumulative_and_probability(&self, symbol: impl core::borrow::Borrow<i32>) -> Option<(u16, core::num::NonZeroU16)> {
+        let k = (*symbol.borrow()).rem_euclid(self.answers.len() as i32 + 1) as usize;
+        self.answers.get(k).map(|a| (a.1, a.2))
+    }
+}
+impl DecoderModel<12> for UserModel {
+    fn quantile_function(&self, quantile: u16) -> (i32, u16, core::num::NonZeroU16) {
+        self.answers[quantile as usize % self.answers.len()]
+    }
+}
+
+fn user_model_script(src: &mut Src, ctx: &mut Ctx) -> CaseResult {
+    use constriction::stream::chain::ChainCoder;
+    let n = 1 + src.below_usize(5);
+    let answers: Vec<(i32, u16, core::num::NonZeroU16)> = (0..n)
+        .map(|i| (i as i32 - 1, if src.bool() { src.below(4097) as u16 } else { src.u16() }, core::num::NonZeroU16::new(if src.bool() { 1 + src.below(4096) as u16 } else { src.u16().max(1) }).unwrap()))
+        .collect();
+    let m = UserModel { answers };
+    note!(ctx, "user-implemented EncoderModel / DecoderModel answering {:?}", m.answers);
+    ctx.label("user_model_with_coders");
+    let words: Vec<u16> = (0..src.below_usize(8)).map(|_| src.wordish(16) as u16).collect();
+    let syms: Vec<i32> = (0..src.below_usize(8)).map(|_| src.below(8) as i32 - 2).collect();
+    match src.below(3) {
+        0 => {
+            let mut c = match ub_only!(AnsCoder::<u16, u32>::from_binary(words.clone())) {
+                Some(Ok(c)) => c,
+                _ => return Ok(()),
+            };
+            for _ in 0..4 {
+                let _ = ub_only!(c.decode_symbol(&m));
+            }
+            for &s in &syms {
+                let _ = ub_only!(c.encode_symbol(s, &m));
+            }
+            for _ in 0..6 {
+                let _ = ub_only!(c.decode_symbol(&m));
+            }
+            let _ = ub_only!(c.into_compressed());
+        }
+        1 => {
+            let mut e = RangeEncoder::<u16, u32>::new();
+            for &s in &syms {
+                let _ = ub_only!(e.encode_symbol(s, &m));
+            }
+            let _ = ub_only!(e.get_compressed().len());
+            let mut d = match ub_only!(RangeDecoder::<u16, u32, _>::from_compressed(words.clone())) {
+                Some(Ok(d)) => d,
+                _ => return Ok(()),
+            };
+            for _ in 0..8 {
+                let _ = ub_only!(d.decode_symbol(&m));
+            }
+        }
+        _ => {
+            let mut c = match ub_only!(ChainCoder::<u16, u32, Vec<u16>, Vec<u16>, 12>::from_binary(words.clone())) {
+                Some(Ok(c)) => c,
+                _ => return Ok(()),
+            };
+            for _ in 0..4 {
+                let _ = ub_only!(c.decode_symbol(&m));
+            }
+            for &s in &syms {
+                let _ = ub_only!(c.encode_symbol(s, &m));
+            }
+            for _ in 0..4 {
+                let _ = ub_only!(c.decode_symbol(&m));
+            }
+        }
+    }
+    Ok(())
+}
+
 pub fn c20_user_impls(src: &mut Src, ctx: &mut Ctx) -> CaseResult {
     ctx.nontrivial();
-    match src.below(8) {
+    match src.below(10) {
+        8 | 9 => user_model_script(src, ctx),
         0 | 1 => user_table_12(src, ctx),
         2 => user_table_16(src, ctx),
         3 => user_table_4(src, ctx),
